@@ -652,6 +652,17 @@ class GoExec:
             v = self.ev(st, x)
             return self.alloc(st, v, x['t'])
         if x['_'] == 'SelectorExpr' and x.get('sel', {}).get('kind') == 'field':
+            base = self.ev(st, x['X'])
+            if isinstance(base, PtrV) and len(x['sel'].get('index', [])) == 1:
+                # &p.f: an interior pointer.  It is given an identity (a function of p and the field) and may be stored
+                # and passed on, but not dereferenced in this function (the field's storage is the struct's)
+                self.nilcheck(st, base, x.get('line'))
+                FA = z3.Function('fieldaddr', I, I, I)
+                ref = FA(base.ref, z3.IntVal(x['sel']['index'][0]))
+                st.assume(ref > 0)
+                p = PtrV(ref, x['t'])
+                p.opaque = True
+                return p
             raise Unsupported('address of a field @%s' % x.get('line'))
         raise Unsupported('address-of @%s' % x.get('line'))
 
@@ -793,6 +804,8 @@ class GoExec:
             st.heap[(tname, fname, i)] = z3.Store(ha, p.ref, t)
 
     def load_ptr(self, st, p):
+        if getattr(p, 'opaque', False):
+            raise Unsupported('dereference of an interior pointer (&p.f)')
         tid = p.etid
         if self.tt.kind(tid) == 'struct':
             tn = self.tt.name(tid)
@@ -800,6 +813,8 @@ class GoExec:
         return self.load_field(st, p, '*' + self.tt[tid]['s'], '', tid)
 
     def store_ptr(self, st, p, v):
+        if getattr(p, 'opaque', False):
+            raise Unsupported('store through an interior pointer (&p.f)')
         tid = p.etid
         if self.tt.kind(tid) == 'struct':
             tn = self.tt.name(tid)
